@@ -1482,7 +1482,7 @@ def regression_zero(ctx):
         script = ["VAL pagefault 5", "E 0 100", "VAL pagefault 9", "X 100", "DUMP"]
         env = {"UFTRACE_TRIGGER": trig}
         out, _ = run_script(h, script, env, 93 - 4 * n)
-        got = [(it[2], it[3][0]) for it in parse_stream(out) if it[0] == "E"]
+        got = [(it[2], it[3][1]) for it in parse_stream(out) if it[0] == "E"]
         ctx.case(key=("regression", "zero-duration", trig), tags=["regression:zero-duration-events-twice"],
                  sample={"script": script, "env": env, "events": got})
         if got != [(100002, 5), (100004, 4)]:
